@@ -2,6 +2,7 @@
 //! Bounded native contract checks and counterexample replay on the REAL code-generation functions.
 mod a64;
 mod emitters;
+mod heap;
 mod machine;
 mod moves;
 mod prints;
@@ -188,6 +189,45 @@ fn check_prints(tier: &str, seed: u64) -> Vec<Summary> {
     out
 }
 
+fn check_heap(tier: &str, seed: u64, backend: Option<&str>) -> Vec<Summary> {
+    let mut out = vec![];
+    let (nseq, len) = if tier == "thorough" { (4000usize, 120usize) } else { (400, 70) };
+    macro_rules! one {
+        ($B:ty, $M:ty, $cap:expr, $name:expr) => {{
+            if backend.map(|b| b == $name).unwrap_or(true) {
+            let mut rng = Rng(seed.wrapping_add(0xA11C) | 1);
+            let mut cases = vec![];
+            for k in 0..nseq {
+                // a third of the sequences stay small (register-only), the others cross the spill boundary
+                let maxv = if k % 3 == 0 { 5 } else { $cap };
+                cases.push((heap::random_ops(&mut rng, len, maxv), rng.next()));
+            }
+            let samples: Vec<String> = cases.iter().take(1).map(|(o, _)| format!("{:?}", &o[..o.len().min(12)])).collect();
+            let audits = Arc::new(AtomicU64::new(0));
+            let a2 = audits.clone();
+            let (total, fails) = par_run(cases, move |(ops, sd)| {
+                let n = heap::run_sequence::<$B, $M, _>(ops, *sd, $cap)?;
+                a2.fetch_add(n, Ordering::Relaxed);
+                Ok(())
+            });
+            let mut s = Summary::default();
+            s.check = format!("heap/{}", $name);
+            s.bound = format!("{nseq} random sequences of {len} operations (literal / allocate 0..8 fields / load / substitute) with at most {} live variables; heap audited after every operation", $cap);
+            s.cases = total;
+            s.nontrivial = audits.load(Ordering::Relaxed);
+            s.exhaustive = false;
+            s.samples = samples;
+            s.violations = fails.iter().map(|f| f.json(&format!("native::{}::memory::heap-audit", $name), $name)).collect();
+            out.push(s);
+            }
+        }};
+    }
+    one!(X86B, x86::X86, 24, "x86_64");
+    one!(A64B, a64::A64, 30, "aarch64");
+    one!(RvB, rv::Rv, 9, "rv64");
+    out
+}
+
 fn main() {
     let args: Vec<String> = std::env::args().collect();
     let check = args.get(1).cloned().unwrap_or_default();
@@ -222,6 +262,7 @@ fn main() {
     std::panic::set_hook(Box::new(|_| {}));
     let res = match check.as_str() {
         "moves" => check_moves(&tier, seed),
+        "heap" => check_heap(&tier, seed, backend.as_deref()),
         "prints" => check_prints(&tier, seed),
         "emitters" => check_emitters(seed, only.as_deref(), backend.as_deref()),
         _ => {
